@@ -3,7 +3,9 @@
   in : (case <comp> <perf> (<action> ...))
          comp   = (comp ((uid gid tag stateful trained) ...) ((pub sub) ...) applyHead applyTail trainHead trainTail)
          perf   = (error) | <comp>
-         action = (train|apply|perftrack|serve  none|<generation>  run  hp  shift)
+         action = (train|apply|perftrack|serve  none|<generation>  run  hp  shift  <crash>  <race>)
+           crash  = none | <k>: (train) the process dies inside its commit, <k> micro-steps completed (a proper prefix)
+           race   = none | (run hp): another process re-trains and commits after the first state load of this action
        every action runs on the case renamed by `+ shift` (uids and gids): a fresh expansion
   out: (ok (wf <plain> <perf> (<the conjuncts of wfPlain> <tailClean>)) (ptags <tag|none> ...) (<step> ...) (perfmodel agree|differ|both-refuse|impl-refuses|model-refuses))
          perfmodel: the perftrack composition derived in the model (`Comp.perfOf`) against the extracted one: do they
@@ -14,6 +16,7 @@
 import ForML.Model.Sexp
 import ForML.Model.Persist
 import ForML.Model.PersistCopy
+import ForML.Model.PersistCommit
 open ForML ForML.Persist
 
 def bool? : Sexp → Option Bool
@@ -49,8 +52,19 @@ def gen? : Sexp → Option (Option Nat)
   | .atom "none" => some none
   | x => x.nat?.map some
 
-def action? : Sexp → Option (Action × Nat)
-  | .list [k, g, r, h, s] => do pure (⟨← kind? k, ← gen? g, ← r.nat?, ← h.nat?⟩, ← s.nat?)
+structure Extra where
+  shift : Nat
+  crash : Option Nat
+  race : Option (Nat × Nat)
+
+def race? : Sexp → Option (Option (Nat × Nat))
+  | .atom "none" => some none
+  | .list [r, h] => do pure (some (← r.nat?, ← h.nat?))
+  | _ => none
+
+def action? : Sexp → Option (Action × Extra)
+  | .list [k, g, r, h, s, c, rc] => do
+    pure (⟨← kind? k, ← gen? g, ← r.nat?, ← h.nat?⟩, ⟨← s.nat?, ← gen? c, ← race? rc⟩)
   | _ => none
 
 def originSexp (o : Origin) : Sexp :=
@@ -74,13 +88,33 @@ def errName : Err → String
   | .assembly => "assembly"
   | .topology => "topology"
 
-def runActions (cs : Case) : Registry → List (Action × Nat) → List Sexp
+/-- the registry after the action: a training that dies inside its commit publishes nothing it has not completed
+(`crashedCommit`: the micro-steps on the store of directories); a racing re-training commits on top of the registry
+the action started from (the action's own loads are pinned: `C04_generation_pinned`) -/
+def settle (cs : Case) (reg reg' : Registry) (a : Action) (x : Extra) : Registry :=
+  let afterCrash := match x.crash with
+    | none => reg'
+    | some k =>
+      match reg'.drop reg.length with
+      | [g] =>
+        let total := (trainOps (reg.length + 1) g.run (g.states.map (fun o => (0, o)))).length
+        crashedCommit reg g (min k (total - 1))
+      | _ => reg'
+  match x.race with
+  | none => afterCrash
+  | some (r, h) =>
+    match step (cs.rename (· + x.shift + 500) (· + x.shift + 500)) afterCrash ⟨.train, none, r, h⟩ with
+    | .ok (reg'', _) => reg''
+    | .error _ => afterCrash
+
+def runActions (cs : Case) : Registry → List (Action × Extra) → List Sexp
   | _, [] => []
-  | reg, (a, k) :: rest =>
-    match step (cs.rename (· + k) (· + k)) reg a with
-    | .error e => .list [.atom "error", .atom (errName e)] :: runActions cs reg rest
+  | reg, (a, x) :: rest =>
+    match step (cs.rename (· + x.shift) (· + x.shift)) reg a with
+    | .error e => .list [.atom "error", .atom (errName e)] :: runActions cs (settle cs reg reg a x) rest
     | .ok (reg', obs) =>
-      .list [.atom "ok", Sexp.ofNat reg'.length, .list (obs.map obsSexp)] :: runActions cs reg' rest
+      let reg'' := settle cs reg reg' a x
+      .list [.atom "ok", Sexp.ofNat reg''.length, .list (obs.map obsSexp)] :: runActions cs reg'' rest
 
 /-- the extracted perftrack composition against the one the model derives from the plain composition -/
 def perfAgrees (plain : Comp) (perf : Except Err Comp) : String :=
